@@ -26,7 +26,9 @@ PROPERTY = {
                    "p is removed, and the run continues; optionally one callback removes itself (remove_breakpoints_by_callback) "
                    "after its k-th hit. Under 4 configurations (back end, block length, per-call limit) the recorded sequence of "
                    "callback invocations equals the sequence predicted from T and the schedule, no callback is invoked for a removed "
-                   "or never-registered address, and the final state equals the reference's. Bounded: exploration, not proof.",
+                   "or never-registered address, and the final state equals the reference's; then the same jitter is run a second time "
+                   "from the start with a fresh set of breakpoints registered on fully translated code (among them addresses that "
+                   "start one translated block and lie inside another). Bounded: exploration, not proof.",
     "rule": "one case = one program, one breakpoint schedule, 4 configurations",
     "trusted_base": ["CPython, gcc; the trace T comes from the same jitter run one instruction at a time (exec_cb before every call); "
                      "the schedule, the prediction and the comparison are written in props/C23.py"],
@@ -71,7 +73,7 @@ class BpCases(BoundedContract):
 
     def gen(self, case):
         rng = random.Random(2300 + case)
-        text = jitrun.gen_body(rng)
+        text = jitrun.gen_body(rng, p_fall=0.6)
         st = jitrun.init_state(rng)
         return rng, text, st
 
@@ -97,10 +99,15 @@ class BpCases(BoundedContract):
             pool = executed * 3 + never + inside[:3]
             return set(rng.sample(pool, min(len(pool), n)))
         s1 = pick(rng.randint(1, 4))
-        stop = rng.choice(executed) if rng.random() < 0.6 else None
+        stop = rng.choice(trace[len(trace) // 3:]) if rng.random() < 0.7 else None     # not too early: the code should be translated
         if stop is not None:
             s1.discard(stop)
         s2 = set(a for a in s1 if rng.random() < 0.5) | (pick(rng.randint(0, 3)) if stop is not None else set())
+        if stop is not None:
+            # block labels: a label reached both by a jump (it starts a translated block) and by falling through from the block
+            # before it (it is an inner instruction of that one) -- registered once both are translated
+            labs = sorted(v for k, v in labels.items() if k[0] == "b" and v in executed and v not in s1)
+            s2 |= set(rng.sample(labs, min(len(labs), rng.randint(1, 2))))
         s2.discard(stop)
         cand = [a for a in s1 if a in executed and (stop is None or a in s2)]
         selfrm = (rng.choice(cand), rng.randint(1, 2)) if cand and rng.random() < 0.4 else None
@@ -140,11 +147,21 @@ class BpCases(BoundedContract):
                     if res is not False or r.j.pc != stop or r.hits:
                         return (False, "configuration %s, %s: the run does not stop on the stopping breakpoint %#x (result %r, pc %#x)" % (
                             cfg, sched, stop, res, r.j.pc), True)
-                    # the code is translated now: change the set of breakpoints
+                    # the code is translated now: change the set of breakpoints.  Part of the new set is chosen by looking at
+                    # the translation cache: addresses that start a translated block AND lie inside another translated block
+                    # (a label reached by a jump and by falling through)
+                    jit = r.j.jit
+                    both = set()
+                    for a in executed:
+                        if a in jit.offset_to_jitted_func and a not in s1 and a != stop:
+                            if any(b.lines and b.ad_min < a < b.ad_max for b in jit.loc_key_to_block.values()):
+                                both.add(a)
+                    s2_cfg = set(s2) | set(sorted(both)[:3])
+                    expected = predict(trace, s1, stop, s2_cfg, selfrm)
                     r.j.remove_breakpoints_by_address(stop)
-                    for a in sorted(s1 - s2):
+                    for a in sorted(s1 - s2_cfg):
                         r.j.remove_breakpoints_by_address(a)
-                    for a in sorted(s2 - s1):
+                    for a in sorted(s2_cfg - s1):
                         cbs[a] = make(a)
                         r.j.add_breakpoint(a, cbs[a])
                     res = r.resume()
@@ -162,6 +179,30 @@ class BpCases(BoundedContract):
             d = jitrun.diff_state(r.state(), want)
             if d:
                 return (False, "configuration %s, %s: %s" % (cfg, sched, d), True)
+            # second run of the SAME jitter from the start, every block now translated: the old breakpoints are removed and a
+            # new set is registered, among them addresses that start a translated block and lie inside another one
+            jit = r.j.jit
+            for a in list(cbs):
+                if r.j.breakpoints_handler.has_callbacks(a):
+                    r.j.remove_breakpoints_by_address(a)
+            both = [a for a in executed if a in jit.offset_to_jitted_func and
+                    any(b.lines and b.ad_min < a < b.ad_max for b in jit.loc_key_to_block.values())]
+            s3 = set(rng.sample(both, min(len(both), 2))) | set(rng.sample(executed, min(len(executed), 2)))
+            log3 = []
+            r.reset_state()
+            r.limit_steps()
+            for a in sorted(s3):
+                r.j.add_breakpoint(a, lambda j, a=a: log3.append(a) or True)
+            try:
+                res = r.go()
+            except Exception as ex:     # noqa
+                return (False, "configuration %s, second run with breakpoints %s: raises %s: %s" % (cfg, sorted(hex(x) for x in s3), type(ex).__name__, str(ex)[:120]), True)
+            exp3 = [a for a in trace if a in s3]
+            if res is not False or log3 != exp3:
+                i = next((i for i in range(min(len(log3), len(exp3))) if log3[i] != exp3[i]), min(len(log3), len(exp3)))
+                return (False, "configuration %s, second run of the same jitter with breakpoints %s registered after everything was translated: "
+                        "callback invocations differ from the executed-address trace at position %d (got %s, expected %s)" % (
+                            cfg, sorted(hex(x) for x in s3), i, [hex(x) for x in log3[max(i - 1, 0):i + 2]], [hex(x) for x in exp3[max(i - 1, 0):i + 2]]), True)
         return (True, "", True)
 
 
